@@ -82,6 +82,18 @@ def members(repo):
 
 
 def run_extraction(repo, out_dir, nodebug=False, target=None, packages=None):
+    """Serialised by a file lock: two extractions must not manipulate the same target dir."""
+    os.makedirs(CACHE, exist_ok=True)
+    lk = open(os.path.join(CACHE, "cargo.lock"), "w")
+    fcntl.flock(lk, fcntl.LOCK_EX)
+    try:
+        return _run_extraction(repo, out_dir, nodebug, target, packages)
+    finally:
+        fcntl.flock(lk, fcntl.LOCK_UN)
+        lk.close()
+
+
+def _run_extraction(repo, out_dir, nodebug=False, target=None, packages=None):
     build_hwx()
     target = target or os.path.join(CACHE, "target")
     os.makedirs(target, exist_ok=True)
